@@ -10,7 +10,7 @@ from acnportal.acnsim.models.ev import EV
 
 ID = "C11"
 LEAN_MODULES = ["AcnProofs.C11"]
-TIE_MODULES = ["AcnProofs.Lemmas.CodeTieQueue"]
+TIE_MODULES = ["AcnProofs.Lemmas.CodeTieQueue", "AcnProofs.Lemmas.CodeTieQueueOps"]
 DRIVER = "drv_C11"
 REQUIRED_THEOREMS = [
     "Acn.C11.prec_order", "Acn.C11.keyLt_by_kind", "Acn.C11.keyLt_strict_weak_order",
